@@ -22,25 +22,24 @@ theorem decode_bounds (r : Nat) (n : Bool) (M : Nat) (E : Int) (h : decode r = .
       · injection h with _ _ he; omega
 
 /-- a small non-negative integer, with sign, as a float -/
-theorem pack_int (s : Bool) (q : Nat) (hq : q ≤ 100000) :
+theorem pack_int (s : Bool) (q : Nat) (hq : q ≤ 16777215) :
     Finite (roundPack s q 0) ∧ toReal (roundPack s q 0) = (if s then -1 else 1) * (q:ℝ) := by
   have hfit : ((q : ℕ) : ℝ) * (2:ℝ)^(0:ℤ) < (2:ℝ)^(127:ℤ) := by
-    have : ((q : ℕ) : ℝ) ≤ 100000 := by exact_mod_cast hq
+    have : ((q : ℕ) : ℝ) ≤ 16777215 := by exact_mod_cast hq
     simp only [zpow_zero, mul_one]
-    apply fit_small; linarith
+    refine lt_of_le_of_lt this ?_; norm_num
   obtain ⟨m', e', hdec, hval⟩ := roundPack_exact s q 0 (by omega) (by norm_num) hfit
   refine ⟨⟨_, _, _, hdec⟩, ?_⟩
   rw [toReal_of_decode _ _ _ _ hdec]
   unfold valR
   rw [hval]; simp
 
-/-- **floor**: for `|a| ≤ 100000` the result is the float of the integer `n` with `n ≤ a < n + 1` -/
-theorem floor_val (a : Nat) (ha : Finite a) (hb : |toReal a| ≤ 100000) :
+/-- **floor**: the result is the float of the integer `n` with `n ≤ a < n + 1` (every finite argument) -/
+theorem floor_val (a : Nat) (ha : Finite a) :
     Finite (floor a) ∧ ∃ n : ℤ, toReal (floor a) = (n:ℝ) ∧ (n:ℝ) ≤ toReal a ∧ toReal a < (n:ℝ) + 1 := by
   obtain ⟨s, m, e, hd⟩ := ha
   obtain ⟨hm24, he149⟩ := decode_bounds a s m e hd
   have hv := toReal_of_decode a s m e hd
-  rw [hv, abs_valR] at hb
   unfold floor
   rw [hd]
   dsimp only
@@ -79,9 +78,15 @@ theorem floor_val (a : Nat) (ha : Finite a) (hb : |toReal a| ≤ 100000) :
       rw [hz, hmr]; field_simp
     have hρ0 : 0 ≤ (r:ℝ) / (2:ℝ) ^ sh := div_nonneg hr0 h2r.le
     have hρ1 : (r:ℝ) / (2:ℝ) ^ sh < 1 := by rw [div_lt_one h2r]; exact hrr
-    have hqle : q ≤ 100000 := by
-      have : (q:ℝ) ≤ 100000 := by rw [hval] at hb; linarith
-      exact_mod_cast this
+    have hsh1 : 1 ≤ sh := by rw [hsh]; omega
+    have hqle : q + 1 ≤ 16777215 := by
+      have h2 : 2 ≤ 2 ^ sh := by
+        calc 2 = 2 ^ 1 := by norm_num
+          _ ≤ 2 ^ sh := Nat.pow_le_pow_right (by norm_num) hsh1
+      have : q * 2 ≤ m := by
+        calc q * 2 ≤ q * 2 ^ sh := Nat.mul_le_mul_left q h2
+          _ ≤ m := by rw [hq]; exact Nat.div_mul_le_self m (2 ^ sh)
+      omega
     rw [hv]
     unfold valR
     rw [hval]
@@ -94,7 +99,7 @@ theorem floor_val (a : Nat) (ha : Finite a) (hb : |toReal a| ≤ 100000) :
         · rw [hq0]; simp; exact hρ0
         · rw [hq0]; simp; exact hρ1
       · rw [if_neg hq0]
-        obtain ⟨pf, pv⟩ := pack_int false q hqle
+        obtain ⟨pf, pv⟩ := pack_int false q (by omega)
         refine ⟨pf, (q:ℤ), ?_, ?_, ?_⟩
         · rw [pv]; simp
         · push_cast; linarith
@@ -105,7 +110,7 @@ theorem floor_val (a : Nat) (ha : Finite a) (hb : |toReal a| ≤ 100000) :
         have hq0 : q ≠ 0 := by
           intro h; apply hm0; rw [← hdm, h, hr0']; simp
         rw [if_neg hq0]
-        obtain ⟨pf, pv⟩ := pack_int true q hqle
+        obtain ⟨pf, pv⟩ := pack_int true q (by omega)
         refine ⟨pf, -(q:ℤ), ?_, ?_, ?_⟩
         · rw [pv]; simp
         · push_cast; simp
@@ -113,17 +118,7 @@ theorem floor_val (a : Nat) (ha : Finite a) (hb : |toReal a| ≤ 100000) :
       · simp only [hr0', if_false]
         have : ¬ (q + 1 = 0) := Nat.succ_ne_zero q
         rw [if_neg this]
-        obtain ⟨pf, pv⟩ := pack_int true (q + 1) (by
-          have : (q:ℝ) + 1 ≤ 100001 := by
-            have : (q:ℝ) ≤ 100000 := by exact_mod_cast hqle
-            linarith
-          -- q + r/2^sh ≤ 100000 with r ≠ 0 gives q < 100000
-          have hρpos : 0 < (r:ℝ) / (2:ℝ) ^ sh := by
-            apply div_pos _ h2r
-            exact_mod_cast Nat.pos_of_ne_zero hr0'
-          have : (q:ℝ) < 100000 := by rw [hval] at hb; linarith
-          have : q < 100000 := by exact_mod_cast this
-          omega)
+        obtain ⟨pf, pv⟩ := pack_int true (q + 1) hqle
         have hρpos : 0 < (r:ℝ) / (2:ℝ) ^ sh := by
           apply div_pos _ h2r
           exact_mod_cast Nat.pos_of_ne_zero hr0'
